@@ -12,7 +12,7 @@ trap cleanup EXIT
 if ! git -C "$wt" apply "$patch" 2>/dev/null && ! (cd "$wt" && patch -p1 -F3 -s < "$patch"); then
   echo "PATCH DOES NOT APPLY: $patch"; exit 3
 fi
-cd /verif && VERIF_REPO="$wt" ./check "$prop" "$@"
+cd "$(dirname "$(realpath "$0")")/.." && VERIF_REPO="$wt" ./check "$prop" "$@"
 rc=$?
 echo "mutant $(basename $(dirname $patch)) on $prop: exit $rc"
 exit $rc
